@@ -842,7 +842,16 @@ func (ms *MidState) fileContractElement(ts V1TransactionSupplement, id types.Fil
 }
 
 func (ms *MidState) storageProofWindowID(ts V1TransactionSupplement, id types.FileContractID) (types.BlockID, bool) {
-	if i, ok := ms.elements[id]; ok && ms.fces[i].FileContractElement.FileContract.WindowStart == ms.base.childHeight() {
+	if i, ok := ms.elements[id]; ok {
+		// the contract was created or revised within this block; its window
+		// is that of its latest revision
+		fc := ms.fces[i].FileContractElement.FileContract
+		if rev := ms.fces[i].Revision; rev != nil {
+			fc = *rev
+		}
+		if fc.WindowStart != ms.base.childHeight() {
+			return types.BlockID{}, false
+		}
 		return ms.base.Index.ID, true
 	}
 	for _, sps := range ts.StorageProofs {
